@@ -108,6 +108,12 @@ package middleware
 //@   trusted
 //@   modifies heap(alloc)
 
+// Setup stores the options in the package's settings, which SetupGlobalMiddleware reads when the chain is assembled.
+//@ fn Setup(opts) 
+//@   props C17
+//@   modifies defaultHandler, authBasic, authToken, appLogger, basePath
+//@   ensures [C17 settings_are_the_given_options] authToken == opts.AuthToken && authBasic == opts.AuthBasic
+
 //@ fn SetupGlobalMiddleware(handler) (h)
 //@   props C17
 //@   modifies heap(alloc), heap(map(string, string)), ghost chain.*
